@@ -380,6 +380,14 @@ func cmdCheck(args []string) int {
 			}
 		}
 		sort.Strings(un)
+		// a baseline rewrite must never quietly enlarge the unclaimed set: say so loudly
+		prevUn := readUnclaimed(*prop)
+		for _, l := range un {
+			name := strings.SplitN(l, "\t", 2)[0]
+			if !prevUn[name] {
+				fmt.Printf("NEW-UNCLAIMED property=%s obligation=%s (was not unclaimed before this baseline rewrite: review it)\n", *prop, name)
+			}
+		}
 		uh := "# obligations of " + *prop + " that do NOT discharge on the pinned tree and are not claimed (reviewed: each needs a contract the\n# code does not support yet or an assumption about a dependency; none is counted as proved). name<TAB>status<TAB>what\n"
 		os.WriteFile(filepath.Join(verifDir, "baseline", *prop+".unclaimed"), []byte(uh+strings.Join(un, "\n")+"\n"), 0o644)
 	}
